@@ -53,10 +53,17 @@ def generate(seed, prop, h, tier, jobs=(2, 3), vertex_p=0.4, fault_p=0.25, fault
     fr = rng.sub("faults")
     faults = {}
     if fr.chance(fault_p):
-        ji = fr.randrange(n)
+        # the faulted job is usually the first one, so that clean jobs follow it in the same process
+        ji = 0 if fr.chance(0.7) else fr.randrange(n)
         seam = fr.pick(list(fault_seams))
         if seam == "solve":
-            faults[str(ji)] = [{"seam": "solve", "at": fr.randrange(9), "kind": fr.pick(SOLVER_FAULTS)}]
+            kind = fr.pick(SOLVER_FAULTS)
+            at = fr.randrange(9)
+            if fr.chance(0.35):
+                # the secondary (tie-breaking / smoothing) solves of a round: a solver that stops there with a
+                # non-optimal status after writing its iterate is the classic "swallowed failure" spot
+                at, kind = fr.pick([1, 2, 2, 5, 7, 8, 8]), fr.pick(["iterate:-1", "iterate:0", "status:-1"])
+            faults[str(ji)] = [{"seam": "solve", "at": at, "kind": kind}]
         elif seam == "write":
             faults[str(ji)] = [{"seam": "write", "at": fr.randrange(3), "kind": fr.pick(["enospc", "eio", "eacces", "short"]), "k": fr.randrange(600)}]
         elif seam == "read":
@@ -64,6 +71,23 @@ def generate(seed, prop, h, tier, jobs=(2, 3), vertex_p=0.4, fault_p=0.25, fault
         elif seam == "clock":
             faults[str(ji)] = [{"seam": "clock", "at": fr.randrange(18), "kind": "jump",
                                 "seconds": fr.pick([-86400 * 400, -3600, 59, 3600, 86400 * 31])}]
+        if fr.chance(0.5):
+            # "retry after the failure with one setting changed": the job after the faulted one is the same
+            # country again (state kept from a run that never finished would show here)
+            t = workload.clone(js[ji])
+            table = workload.GLOBAL_VALUES if t["iso3"] == "WOR" else workload.COUNTRY_VALUES
+            fam = fr.pick(["waste", "waste", "grasses", "nutrition", "shutoff", "scenario"])
+            vals = [v for v in table[fam] if v != t["options"].get(fam)]
+            if vals:
+                t["options"][fam] = fr.pick(vals)
+            if fr.chance(0.5):
+                t["options"]["GRASSES_PRODUCTION_MULTIPLIER"] = fr.pick([0.9, 1.03, 1.2])
+            t["tag"] = len(js)
+            if ji + 1 < len(js):
+                t["tag"] = js[ji + 1]["tag"]
+                js[ji + 1] = t
+            else:
+                js.append(t)
     return {"h": h, "prop": prop, "jobs": js, "solver": mode, "buggify": bugg, "faults": faults}
 
 
